@@ -104,6 +104,7 @@ fn main() {
         "api" => api::cmd_api(&a),
         "headers" => headers::cmd_headers(&a),
         "mutate" => mutate::cmd_mutate(&a),
+        "wgen" => mutate::cmd_wgen(&a),
         "history" => history::cmd_history(&a),
         "histexp" => history::cmd_histexp(&a),
         "cfg19" => cfgcmd::cmd_cfg19(&a),
